@@ -452,6 +452,21 @@ findInsertionPointBinarySearch(
 
 
 
+// Get the node that "owns" a node for the purposes of document
+// order.  A document or document fragment node owns itself, which
+// is not how DOM works...
+inline const XalanNode*
+getOwnerForDocumentOrder(const XalanNode&   node)
+{
+    const XalanNode::NodeType   theType = node.getNodeType();
+
+    return theType == XalanNode::DOCUMENT_NODE ||
+           theType == XalanNode::DOCUMENT_FRAGMENT_NODE ?
+                &node : node.getOwnerDocument();
+}
+
+
+
 template<class PredicateType>
 inline bool
 findInsertionPointLinearSearch(
@@ -466,6 +481,13 @@ findInsertionPointLinearSearch(
     bool    fInsert = true;
 
     typedef MutableNodeRefList::NodeListIteratorType    NodeListIteratorType;
+
+    // The nodes of a document are kept together, with the document
+    // node first.  Documents are in the order in which their first
+    // node was added to the list.
+    const XalanNode* const  theOwner = getOwnerForDocumentOrder(*node);
+
+    bool    fFoundOwner = false;
 
     NodeListIteratorType    current(begin);
 
@@ -483,9 +505,31 @@ findInsertionPointLinearSearch(
 
             break;
         }
-        else if (isNodeAfterPredicate(*node, *child) == false)
+        else if (getOwnerForDocumentOrder(*child) == theOwner)
         {
-            // We found the insertion point...
+            fFoundOwner = true;
+
+            if (node == theOwner)
+            {
+                // The document node is before every other
+                // node in the document...
+                break;
+            }
+            else if (child != theOwner &&
+                     isNodeAfterPredicate(*node, *child) == false)
+            {
+                // We found the insertion point...
+                break;
+            }
+            else
+            {
+                ++current;
+            }
+        }
+        else if (fFoundOwner == true)
+        {
+            // This is the first node of the next document,
+            // so the node goes here...
             break;
         }
         else
@@ -501,37 +545,8 @@ findInsertionPointLinearSearch(
 
 
 
-struct DocumentPredicate
-{
-    bool
-    operator()(
-            const XalanNode&    node1,
-            const XalanNode&    node2) const
-    {
-        // Always order a document node, or a node from another
-        // document after another node...
-        const XalanNode::NodeType   node1Type =
-            node1.getNodeType();
-
-        const XalanNode::NodeType   node2Type =
-            node2.getNodeType();
-
-        if ((node1Type == XalanNode::DOCUMENT_NODE ||
-             node1Type == XalanNode::DOCUMENT_FRAGMENT_NODE) &&
-            (node2Type == XalanNode::DOCUMENT_NODE ||
-             node2Type == XalanNode::DOCUMENT_FRAGMENT_NODE))
-        {
-            return true;
-        }
-        else
-        {
-            return node1.getOwnerDocument() != node2.getOwnerDocument();
-        }
-    }
-};
-
-
-
+// The predicates are only used to compare two nodes in the same
+// document, neither of which is the document node.
 struct IndexPredicate
 {
     bool
@@ -541,10 +556,8 @@ struct IndexPredicate
     {
         assert(node1.getOwnerDocument() == node2.getOwnerDocument());
 
-        return m_documentPredicate(node1, node2) == true ? true : node1.getIndex() > node2.getIndex() ? true : false;
+        return node1.getIndex() > node2.getIndex() ? true : false;
     }
-
-    DocumentPredicate   m_documentPredicate;
 };
 
 
@@ -562,26 +575,17 @@ struct ExecutionContextPredicate
             const XalanNode&    node1,
             const XalanNode&    node2) const
     {
-        if (m_documentPredicate(node1, node2) == true)
-        {
-            return true;
-        }
-        else
-        {
-            assert(node1.getOwnerDocument() == node2.getOwnerDocument());
-            assert(
-                node1.getNodeType() != XalanNode::DOCUMENT_NODE &&
-                node1.getNodeType() != XalanNode::DOCUMENT_FRAGMENT_NODE &&
-                node2.getNodeType() != XalanNode::DOCUMENT_NODE &&
-                node2.getNodeType() != XalanNode::DOCUMENT_FRAGMENT_NODE);
+        assert(node1.getOwnerDocument() == node2.getOwnerDocument());
+        assert(
+            node1.getNodeType() != XalanNode::DOCUMENT_NODE &&
+            node1.getNodeType() != XalanNode::DOCUMENT_FRAGMENT_NODE &&
+            node2.getNodeType() != XalanNode::DOCUMENT_NODE &&
+            node2.getNodeType() != XalanNode::DOCUMENT_FRAGMENT_NODE);
 
-            return  m_executionContext.isNodeAfter(node1, node2);
-        }
+        return  m_executionContext.isNodeAfter(node1, node2);
     }
 
     XPathExecutionContext&  m_executionContext;
-
-    DocumentPredicate       m_documentPredicate;
 };
 
 
